@@ -314,10 +314,10 @@ func genCanonMarkupDoc(r *RNG, k int) markupDoc {
 	p := m.p
 
 	type src struct {
-		on                                                             bool
-		title, typ, url, desc, publisher, copyright, author            string
-		images                                                         []data.MarkupImage
-		article                                                        *data.MarkupArticle
+		on                                                  bool
+		title, typ, url, desc, publisher, copyright, author string
+		images                                              []data.MarkupImage
+		article                                             *data.MarkupArticle
 	}
 	var og, so, ie src
 
